@@ -117,7 +117,10 @@ func zxIsNotExist(err error) bool                  { return err == zxErrNotExist
 func zxTempFile(dir, pattern string) (*os.File, error) {
 	zxOp("tempfile")
 	zxTmpSeq++
-	name := "/tmp/" + pattern + strconv.Itoa(zxTmpSeq)
+	if dir == "" {
+		dir = "/tmp" // os.TempDir()
+	}
+	name := dir + "/" + pattern + strconv.Itoa(zxTmpSeq)
 	mf := &zxMemFile{}
 	zxFS[name] = mf
 	h := &os.File{}
